@@ -34,6 +34,15 @@
 //!                                                 pair of different lists must be refused:
 //!                                                 `same=<ok count> other_same_thread=<refused>/<tried>
 //!                                                 cross_thread=<refused>/<tried>`
+//!   @ byname <names> <order> <seed>               a tensor whose dimension names run together equally in
+//!                                                 different orders ("a","aa" / "r","rr" / "x","xy" /
+//!                                                 "a","b","ab" / the empty name) indexed, transposed and
+//!                                                 reordered by `order`: the answer must not depend on
+//!                                                 which by-name call (of colliding names) came before
+//!   @ naneq <seed>                                equality of f64 containers holding a NaN: `x == x`,
+//!                                                 `x == x.clone()`, `&x == &x`, view / tensor / matrix
+//!                                                 forms — every comparison must be `false`, whether the
+//!                                                 two operands are the same object or equal copies
 //!   @ messages <seed>                             the TEXT of panic messages and of `Display`ed error
 //!                                                 values of invalid calls (several unknown / repeated
 //!                                                 names, bad shapes, records of two different
@@ -589,6 +598,58 @@ fn crosslist(k: usize) -> String {
     format!("same={} other_same_thread={}/{} cross_thread={}/{}", same_ok, st_ref, st_all, ct_ref, ct_all)
 }
 
+fn byname(names: &[&'static str], order: &[&'static str], seed: u64) -> String {
+    let mut rng = Rng::new(seed);
+    crate::with_d!(names.len(), D => {
+        let shape: [(&'static str, usize); D] = std::array::from_fn(|i| (names[i], 2 + i));
+        let order: [&'static str; D] = names_array(order);
+        let n: usize = shape.iter().map(|d| d.1).product();
+        let t = Tensor::from(shape, (0..n).map(|i| i as f64 + (rng.below(8) as f64) / 8.0).collect());
+        let parts = vec![
+            show_shape(&t.index_by(order).shape()),
+            hexes(t.index_by(order).iter()),
+            show_tensor_bits(&t.transpose(order)),
+            show_tensor_bits(&t.reorder(order)),
+            dg(format!("{}", t.index_by(order))),
+            format!("{:?}", order.iter().map(|n| t.length_of(n)).collect::<Vec<_>>()),
+        ];
+        parts.join(" ¦ ")
+    })
+}
+
+fn naneq(seed: u64) -> String {
+    let mut rng = Rng::new(seed);
+    let mut data = values(&mut rng, 6);
+    let at = rng.below(6);
+    data[at] = f64::NAN;
+    let m = Matrix::from_flat_row_major((2, 3), data.clone());
+    let m2 = m.clone();
+    let t = Tensor::from([("r", 2), ("c", 3)], data.clone());
+    let t2 = t.clone();
+    #[allow(clippy::eq_op)]
+    let flags = vec![
+        m == m,
+        m == m2,
+        &m == &m,
+        MatrixView::from(&m) == MatrixView::from(&m),
+        MatrixView::from(&m) == MatrixView::from(&m2),
+        MatrixView::from(&m) == m,
+        m == MatrixView::from(&m2),
+        t == t,
+        t == t2,
+        &t == &t,
+        TensorView::from(&t) == TensorView::from(&t),
+        TensorView::from(&t) == TensorView::from(&t2),
+        TensorView::from(&t) == t,
+        t == TensorView::from(&t2),
+        t.index_by(["c", "r"]).map(|x| x) == t.index_by(["c", "r"]).map(|x| x),
+        // without the NaN the same comparisons hold (so `false` above is not vacuous)
+        !(Matrix::from_flat_row_major((1, 2), vec![1.5, 2.5]) == Matrix::from_flat_row_major((1, 2), vec![1.5, 2.5])),
+        !(Tensor::from([("x", 2)], vec![1.5, 2.5]) == Tensor::from([("x", 2)], vec![1.5, 2.5])),
+    ];
+    format!("nan@{} {}", at, flags.iter().map(|f| if *f { "T" } else { "f" }).collect::<String>())
+}
+
 /// the message a call panics with (`-` if it returns)
 fn panic_message<R>(f: impl FnOnce() -> R) -> String {
     match std::panic::catch_unwind(std::panic::AssertUnwindSafe(f)) {
@@ -716,6 +777,8 @@ impl Runner {
             "length" => length(num(2), num(3) as u64),
             "qr" => qr(num(2), num(3), num(4) as u64),
             "crosslist" => crosslist(num(2)),
+            "byname" => byname(&parse_names(toks[2]), &parse_names(toks[3]), num(4) as u64),
+            "naneq" => naneq(num(2) as u64),
             "messages" => messages(num(2) as u64),
             "names" => names(toks[2], num(3) as u64),
             _ => "bad-op".into(),
@@ -790,6 +853,35 @@ pub fn gen(g: &mut Gen) {
             g.count("qr");
             g.op(format!("@ qr {} {} {}", rows, cols, seed));
         }
+    }
+    // names whose different orders run together to the same text; each request is a case of its
+    // own, so the execution modes (reverse order, fresh thread / process) change what came before
+    let sets: [&[&str]; 7] = [&["a", "aa"], &["r", "rr"], &["x", "xy"], &["a", "b", "ab"], &["rr", "r", "rrr"],
+        &["_empty_", "a"], &["ab", "a", "b"]];
+    for set in sets {
+        for _ in 0..(reps / 2).max(1) {
+            let seed = g.rng.next() % 1_000_000;
+            let d = set.len();
+            let mut orders: Vec<Vec<&str>> = vec![set.to_vec()];
+            for r in 1..d {
+                let mut o = set.to_vec();
+                o.rotate_left(r);
+                orders.push(o);
+            }
+            let mut swapped = set.to_vec();
+            swapped.swap(0, d - 1);
+            orders.push(swapped);
+            orders.push(set.to_vec());
+            for o in orders {
+                g.count("byname");
+                g.op(format!("@ byname {} {} {}", set.join(","), o.join(","), seed));
+            }
+        }
+    }
+    for _ in 0..reps {
+        let seed = g.rng.next() % 1_000_000;
+        g.count("naneq");
+        g.op(format!("@ naneq {}", seed));
     }
     for k in [1usize, 2, 3, 5] {
         g.count("crosslist");
